@@ -347,6 +347,7 @@ func c13LifecycleCombos() (progs [][]c13Round, labels []string) {
 func TestVerifC13Lifecycle(t *testing.T) {
 	rep := kit.NewReport("C13", "lifecycle")
 	defer rep.Write()
+	defer c13UnitWatchdog(rep, "lifecycle")()
 	rep.SetRule("first 72 enumerated sequential hand-overs across an event (holder x epoch 5 receiving at the log end or gated at the log start; event = leadership lost+regained in one step / re-election / lost, then regained / read-only on+off / read-only on / pause+resume; next member same or other consumer id with epoch 4, 5, 6; third member epoch 5), then the seeded programs of the schedules unit (rounds of concurrent group subscribes with older / equal / newer epochs, cancellations, Close(), gated consumers, delayed / parked loop clean-ups) with partition lifecycle events inserted between the rounds (own round) or into a round (concurrent): leadership lost and regained (partition.SetLeader(other,e+1) -> becomeFollower, SetLeader(self,e+2) -> becomeLeader, as the FSM does for ChangeLeader operations; in one action or spread over several rounds), re-election with a new leader epoch while leading, SetReadonly on/off, PauseStream followed by the automatic resume through a publish (partition object replaced); while the server is not the partition leader group subscribes are refused by api.Subscribe and are not issued; the round after an event contains a group subscribe. " + c13Rule + "; in this unit non-trivial = >= 1 lifecycle event was executed while >= 1 subscription of the case was ACTIVE")
 	rep.Assume("a subscription that ends because of an event (commit log closed by a pause, end of a read-only log) is an ordinary ending; after a pause the harness un-gates every consumer and waits (watchdog, never a verdict) until all subscriptions have ended before it resumes the partition")
 	rep.Assume("leadership is moved with direct partition.SetLeader calls on a single-node server (what the FSM's applyChangePartitionLeader calls), not by a real multi-node fail-over; the phantom leader never answers, the follower's leader time-out is set to one hour")
